@@ -234,6 +234,7 @@ type layoutReader struct {
 	problems  []layoutProblem
 	prefixEnd *aff     // end of the last prefix slice assigned back to the buffer
 	prefixAt  ast.Node // where
+	presetField map[*types.Var]aff // fields whose value is known from the writer (header.diff = len(suffix))
 	unm       map[types.Object]int // proto.Unmarshal(target) <- field index of the source bytes
 	verified  []verifiedPair
 }
@@ -270,6 +271,9 @@ func (lr *layoutReader) eval(e ast.Expr) (aff, bool) {
 	case *ast.SelectorExpr:
 		if v := w.fieldOf(x); v != nil {
 			if a, ok := lr.env[v]; ok {
+				return a, true
+			}
+			if a, ok := lr.presetField[v]; ok {
 				return a, true
 			}
 		}
@@ -479,6 +483,16 @@ func (lr *layoutReader) run() {
 			if len(s.Names) == len(s.Values) {
 				for i := range s.Names {
 					lr.assign(s, s.Names[i], s.Values[i], token.DEFINE)
+				}
+			}
+		case *ast.IncDecStmt:
+			if o := lr.lhsObj(s.X); o != nil {
+				if old, had := lr.env[o]; had {
+					if s.Tok == token.INC {
+						lr.env[o] = old.add(affC(1), 1)
+					} else {
+						lr.env[o] = old.add(affC(1), -1)
+					}
 				}
 			}
 		case *ast.CallExpr:
